@@ -242,6 +242,9 @@ func (f *SecretFactory) New(b []byte) (securememory.Secret, error) {
 
 	secret, err := newSecret(len(b), f.memcall())
 	if err != nil {
+		// the caller's copy is wiped on every path, as documented
+		core.Wipe(b)
+
 		return nil, err
 	}
 
